@@ -650,6 +650,13 @@ def _gen_case(rng):
         f = ["diff", "pct", "roc"][int(rng.integers(0, 3))]
         ops.append({"op": "cum-plain", "f": f, "k": int(rng.integers(1, 5)), "initial": (None if rng.random() < 0.5 else float(np.round(rng.normal() * 3 + 5, 2))),
                     "span": (None if rng.random() < 0.6 else [int(rng.integers(0, n)), n - 1 + int(rng.integers(0, 3))])})
+    ppy = {"Y": 1, "H": 2, "Q": 4, "M": 12}.get(freq)
+    if ppy is not None and positive and n >= ppy + 3 and np.all(np.isfinite(data)) and rng.random() < 0.5:
+        # cumulation under a KEYWORD shift, with the series itself as initial condition, reproduces the series
+        # (the span starts at least one year inside the data so that every reference period exists)
+        a = ppy + int(rng.integers(0, n - ppy - 2))
+        ops.append({"op": "inverse-keyword", "f": str(rng.choice(["diff", "diff_log", "roc", "pct"])), "kw": str(rng.choice(["tty", "yoy", "soy", "eopy"])),
+                    "span": [a, n - 1], "form": str(rng.choice(["func", "method"]))})
     return {"kind": "series-ops", "freq": freq, "base": _rand_base(rng, freq), "data": data.tolist(), "positive": positive, "ops": ops}
 
 
@@ -841,6 +848,27 @@ def _run_op(c, ir, x, xs, fv, freq, base, op):
             i, v = np.argwhere(bad)[0]
             c.violation(f"{cum}:inverse-not-reproduced[{direction}]",
                         f"{cum}({f}(x, {-k}), {-k}, initial=x, span offsets {a}..{b} {direction}) at offset {S[i] - start}, variant {v}: x = {want[i, v]!r}, got {got[i, v]!r}")
+    elif kind == "inverse-keyword":
+        f, kw_ = op["f"], op["kw"]
+        a, b = op["span"]
+        d = getattr(ir, f)(x, kw_)
+        span = ir.Span(_period(ir, freq, base, a), _period(ir, freq, base, b))
+        cum = "cum_" + f
+        if op["form"] == "method":
+            y = d.copy()
+            getattr(y, cum)(shift=kw_, initial=x, span=span)
+        else:
+            y = getattr(ir, cum)(d, shift=kw_, initial=x, span=span)
+        S = list(range(start + a, start + b + 1))
+        want = _rows(xs, S)
+        got = _rows(_snap(y), S)
+        c.event("inverse", f"{cum}[keyword]", key=(cum, freq, kw_, nv, len(S) > 4), nontrivial=len(S) >= 2)
+        with np.errstate(all="ignore"):
+            bad = ~(np.abs(got - want) <= 1e-9 * max(1, len(S)) * (1 + np.abs(want)))
+        if bad.any():
+            i, v = np.argwhere(bad)[0]
+            c.violation(f"{cum}:inverse-not-reproduced[keyword:{kw_}]",
+                        f"{cum}({f}(x, {kw_!r}), {kw_!r}, initial=x, span offsets {a}..{b}) at offset {S[i] - start}, variant {v}: x = {want[i, v]!r}, got {got[i, v]!r}")
     elif kind == "cum-plain":
         f, k = op["f"], int(op["k"])
         d = getattr(ir, f)(x, -k)
